@@ -51,19 +51,35 @@ def _collect_pow(expr: Pow) -> tuple[Expr, Dimension]:
     raise ValueError(f"Dimension of '{expr.exp}' is {exp_dim}, but it should be dimensionless")
 
 
-@_elementwise_wrapper
-def _collect_add(factor: Expr, dim: Dimension, arg: Expr) -> tuple[Expr, Dimension]:
-    arg_factor, arg_dim = collect_quantity_factor_and_dimension(arg)
+def _collect_terms(expr: Expr) -> tuple[list[Expr], Dimension]:
+    """
+    Collects the factors of all arguments of ``expr`` and their common dimension. Arguments of any
+    dimension (`0`, `±Inf`, `NaN`) are compatible with every other argument.
+    """
 
-    if is_any_dimension(factor):
-        dim = arg_dim
-    elif is_any_dimension(arg_factor):
-        arg_dim = dim
+    factors: list[Expr] = []
+    dim = None
+    last_dim = dimensionless
 
-    if not dimsys_SI.equivalent_dims(dim, arg_dim):
-        raise ValueError(f"Dimension of '{arg}' is {arg_dim}, but it should be {dim}")
+    for arg in expr.args:
+        arg_factor, arg_dim = collect_quantity_factor_and_dimension(arg)
+        factors.append(arg_factor)
+        last_dim = arg_dim
 
-    return (factor + arg_factor, dim)
+        if is_any_dimension(arg_factor):
+            continue
+
+        if dim is None:
+            dim = arg_dim
+        elif not dimsys_SI.equivalent_dims(dim, arg_dim):
+            raise ValueError(f"Dimension of '{arg}' is {arg_dim}, but it should be {dim}")
+
+    return factors, (last_dim if dim is None else dim)
+
+
+def _collect_add(expr: Add) -> tuple[Expr, Dimension]:
+    factors, dim = _collect_terms(expr)
+    return (Add(*factors), dim)
 
 
 def _collect_abs(expr: Abs) -> tuple[Expr, Dimension]:
@@ -72,22 +88,8 @@ def _collect_abs(expr: Abs) -> tuple[Expr, Dimension]:
 
 
 def _collect_min_max(expr: MinMaxBase) -> tuple[Expr, Dimension]:
-    cls = type(expr)
-
-    def collect(factor: Expr, dim: Dimension, arg: Expr) -> tuple[Expr, Dimension]:
-        arg_factor, arg_dim = collect_quantity_factor_and_dimension(arg)
-
-        if is_any_dimension(factor):
-            dim = arg_dim
-        elif is_any_dimension(arg_factor):
-            arg_dim = dim
-
-        if not dimsys_SI.equivalent_dims(dim, arg_dim):
-            raise ValueError(f"Dimension of '{arg}' is {arg_dim}, but it should be {dim}")
-
-        return (cls(factor, arg_factor), dim)
-
-    return _elementwise_wrapper(collect)(expr)
+    factors, dim = _collect_terms(expr)
+    return (type(expr)(*factors), dim)
 
 
 def _collect_function(expr: SymFunction) -> tuple[Expr, Dimension]:
